@@ -125,7 +125,35 @@ func (x *Exec) callStatic(f *Frame, st *State, ins ssa.Instruction, fn *ssa.Func
 		nf.binds = clo.Binds
 	}
 	x.depth++
-	res := nf.run(st, args)
+	var res *RunResult
+	if sp == nil && clo == nil {
+		// an uncontracted callee is inlined as a convenience: if its body is outside the supported
+		// subset, fall back to "arbitrary effects" instead of giving up on the caller
+		saved, nObl, nAss := st.clone(), len(x.Obls), len(x.assumes)
+		failed := ""
+		func() {
+			defer func() {
+				if r := recover(); r != nil {
+					if u, ok := r.(Unsupported); ok {
+						failed = u.Error()
+						return
+					}
+					panic(r)
+				}
+			}()
+			res = nf.run(st, args)
+		}()
+		if failed != "" {
+			x.depth--
+			*st = *saved
+			x.Obls = x.Obls[:nObl]
+			x.assumes = x.assumes[:nAss]
+			x.note("uncontracted callee treated as arbitrary (body outside the supported subset): " + fn.String())
+			return x.arbitraryCall(f, st, ins, fn, args), true
+		}
+	} else {
+		res = nf.run(st, args)
+	}
 	x.depth--
 	if res.Out.Dead || res.Out.PC.IsFalse() {
 		return nil, false
